@@ -568,8 +568,11 @@ def nan_stream(ctx, n):
 
 def what_kind(what):
     import re
-    w = re.sub(r'[0-9\[\],_:\- ]+', ' ', what)
-    return ' '.join(w.split()[:6])
+    w = re.sub(r'^op#\d+: ', '', what)
+    w = re.sub(r'[^A-Za-z ]+', ' ', w)
+    words = [x for x in w.split() if x not in ('True', 'False', 'None', 'm', 'l', 's', 'i')]
+    tail = 'malformed' if 'malformed' in what else ('per-dump' if 'per-dump' in what else '')
+    return ' '.join(words[:2] + [tail])
 
 
 def still_fails(ctx_proto, case, kind=None):
@@ -594,6 +597,15 @@ def shrink(ctx, case, what):
     ops = common.ddmin(cur['ops'], lambda sub: still_fails(ctx, dict(cur, ops=list(sub)), kind))
     if still_fails(ctx, dict(cur, ops=list(ops)), kind):
         cur['ops'] = list(ops)
+    changed = True
+    while changed:                     # drop single events of the initial series
+        changed = False
+        for i in range(1, len(cur['vals'])):
+            cand = dict(cur, vals=cur['vals'][:i] + cur['vals'][i + 1:],
+                        events=cur['events'][:i] + cur['events'][i + 1:])
+            if still_fails(ctx, cand, kind):
+                cur, changed = cand, True
+                break
     if cur['alpha'] != 'str' and still_fails(ctx, dict(cur, alpha='str'), kind):
         cur['alpha'] = 'str'
     if any(cur['arr']) and still_fails(ctx, dict(cur, arr=[False]), kind):
